@@ -129,6 +129,12 @@ def work(arg: tuple) -> dict:
     # an event manager whose on_node_start hook suspends: a node held open in the hook must not delay its siblings
     hook = {'mode': 'gated', 'gate_kinds': ['node_start']}
     variants += [({n: m for n in spec['nodes']}, spec, hook) for m in ('async', 'thread')]
+    # build_node-derived nodes (the generated wrapper decides how the template's process() is dispatched)
+    gen = json.loads(json.dumps(spec))
+    for n_, nd_ in gen['nodes'].items():
+        if n_ != gen['input']:
+            nd_['generic'] = True
+    variants += [({n: m for n in gen['nodes']}, gen, {'events': False}) for m in ('async', 'thread', 'process')]
     for assign, base, collab in variants:
         dp = depths(base)
         sp = json.loads(json.dumps(base))
